@@ -224,3 +224,45 @@ Proof.
     repeat (destruct HI as [HI|HI]; [inversion HI; subst; discriminate|]). contradiction.
   - intros d r. vm_compute. discriminate.
 Qed.
+
+(** ** Source tie: pointindex.IsQuadTree itself *)
+From Texel Require Import Tms.GoTms Tms.ProofsGenQuadTree.
+From Texel.Gen Require Import QuadTreeGen.
+
+(** REGENERATED from /repo's pointindex/pointindex.go on every run (gen/QuadTreeGen.v, translator/quadtree.go), statement
+    by statement: the body of IsQuadTree -- the declarations of previousTMID / previousTM, the range loop and its state,
+    the lookup of the tile matrix, every check (operands, operators, order), every return and the number of its error
+    (n-th errors.New in source order = Reject n; the error of strconv.Atoi = Reject 10), the test previousTM != nil,
+    every pointer dereference (nil = the panic verdict), previousTMID+1 in 64-bit arithmetic, 2*MatrixHeight in uint
+    arithmetic, and the two assignments that end the body.
+    STAYS MODELLED (the translator maps it to a function of the model only after checking the exact shape of the call in
+    the AST; listed at the top of gen/QuadTreeGen.v and Tms/ProofsGenQuadTree.v, definitions in Tms/GoTms.v):
+    maps.Keys + slices.Sort + range + map lookup = the entries of [sorted_matrices]; strconv.Atoi = [parse_int];
+    float64 division + mathhelp.FBetweenInc (its body checked) = [ratio_ok] with the regenerated literals; != on
+    [2]float64 / CornerOfOrigin = [point_feqb] / [corner_eqb]; the fields of tms20.TileMatrix (names and Go types checked
+    against tms20/tms20.go) = the projections of [tileMatrix].
+    The equality holds for EVERY record, without hypotheses. *)
+Theorem C14_source_tie_isQuadTree : forall t, gen_isQuadTree t = isQuadTree t.
+Proof. exact gen_isQuadTree_eq. Qed.
+Print Assumptions C14_source_tie_isQuadTree.
+
+(** the numbering of the verdicts: the messages of the errors.New calls that the translation numbered are the regenerated
+    list [gen_quadtree_checks] the model's [Reject n] refers to, and the Atoi error (10) is the first number after them *)
+Theorem C14_source_tie_isQuadTree_checks :
+  gen_isQuadTree_errors = gen_quadtree_checks /\ List.length gen_isQuadTree_errors = atoi_error.
+Proof. exact gen_isQuadTree_errors_eq. Qed.
+Print Assumptions C14_source_tie_isQuadTree_checks.
+
+(** the generated code runs: NetherlandsRDNewQuad (17 matrices) is accepted; a cell size of 1.97 x the next one's at
+    matrix 5, a missing matrix 5, a nil point of origin at matrix 5 give error 9, error 4 and the panic *)
+Example C14_example_gen_isQuadTree : exists t,
+  rd = Ok t /\ gen_isQuadTree t = Accept /\
+  gen_isQuadTree (update_tm t 5 (with_cellSize (Dec 1058 (-1)))) = Reject 9 /\
+  gen_isQuadTree (delete_tm t 5) = Reject 4 /\
+  gen_isQuadTree (update_tm t 5 (fun m => MkTM (tm_id m) (tm_title m) (tm_description m) (tm_keywords m)
+     (tm_scaleDenominator m) (tm_cellSize m) (tm_corner m) None (tm_tileWidth m) (tm_tileHeight m) (tm_matrixWidth m)
+     (tm_matrixHeight m) (tm_vmw m))) = VPanic.
+Proof.
+  unfold rd. eexists. split; [vm_compute; reflexivity|].
+  split; [vm_compute; reflexivity|]. split; [vm_compute; reflexivity|]. split; vm_compute; reflexivity.
+Qed.
